@@ -440,6 +440,15 @@ pub fn sentinels(plan: &mut Plan, k: u32, start_us: u64) -> u64 {
 /// leaves that request unanswered.
 pub fn final_burst(rng: &mut Rng, plan: &mut Plan, t_us: u64) {
     let mut ctr = plan.seed ^ 0xf1a1;
+    // one time in three (small batch sizes only) the burst is longer than one pass of the event
+    // loop takes (16 batches): the rest must be served without a new arrival
+    let bs = plan.server.as_ref().map(|s| s.batch_size).unwrap_or(64).max(1) as u64;
+    if bs <= 8 && rng.chance(1, 3) {
+        for _ in 0..16 * bs + 2 + rng.below(2 * bs + 2) {
+            let req = if rng.chance(1, 2) { valid_spec(rng, &mut ctr) } else { storm_spec(rng, &mut ctr) };
+            plan.step(t_us, Action::Send { sock: 300 + rng.below(16) as u32, req });
+        }
+    }
     for _ in 0..1 + rng.below(6) {
         let req = match rng.below(4) {
             0 => ReqSpec::Garbage { len: 0, seed: 0 },
